@@ -34,19 +34,23 @@ type txState struct {
 	done   bool
 }
 
+// cell is one selected value: the logID column is TEXT, the others are BLOBs or NULL.
+type cell struct {
+	isKey bool
+	key   string
+	val   []byte // nil = NULL
+}
+
 type rowState struct {
 	err   error
 	found bool
-	val   []byte // nil = NULL
-	isKey bool   // the selected column is logID (a text value)
-	key   string
+	cells []cell
 }
 
 type rowsState struct {
 	db     *sql.DB
 	holds  bool // holds a pooled connection of its own until closed
-	vals   []string
-	null   []bool
+	rows   [][]cell
 	i      int
 	closed bool
 	err    error
@@ -73,9 +77,10 @@ const (
 	colRange = 3
 )
 
-// dbRow is one row; a nil Chkpt is SQL NULL.
+// dbRow is one row; a nil column is SQL NULL.
 type dbRow struct {
 	Chkpt []byte
+	Range []byte
 }
 
 // NewDB returns a fresh database handle with an empty store.
@@ -160,6 +165,36 @@ func DBBegin(db *sql.DB) (*sql.Tx, error) {
 	return tx, nil
 }
 
+// view is what a statement sees: the committed table overlaid with the operations staged by its
+// own transaction, in insertion order.
+func view(s *DBState, staged []dbOp) (keys []string, rows []dbRow) {
+	for k, r := range s.Table {
+		keys = append(keys, k)
+		rows = append(rows, r)
+	}
+	for _, op := range staged {
+		at := -1
+		for i, k := range keys {
+			if k == op.key {
+				at = i
+			}
+		}
+		switch {
+		case op.del && at >= 0:
+			keys = append(keys[:at:at], keys[at+1:]...)
+			rows = append(rows[:at:at], rows[at+1:]...)
+		case op.del:
+		case at >= 0:
+			rows[at] = op.row
+		default:
+			keys = append(keys, op.key)
+			rows = append(rows, op.row)
+		}
+	}
+	return
+}
+
+// lookupIn finds the row with the given key as a statement of the transaction sees it.
 func lookupIn(s *DBState, staged []dbOp, key string) (dbRow, bool) {
 	for i := len(staged) - 1; i >= 0; i-- {
 		if staged[i].key == key {
@@ -173,15 +208,122 @@ func lookupIn(s *DBState, staged []dbOp, key string) (dbRow, bool) {
 	return v, ok
 }
 
-// nullOK evaluates an optional "chkpt IS NOT NULL" (1) / "chkpt IS NULL" (2) filter on a row.
-func nullOK(row dbRow, nul int) bool {
-	switch nul {
-	case 1:
-		return row.Chkpt != nil
-	case 2:
-		return row.Chkpt == nil
+// candidates are the rows a WHERE clause can match, with the clause that is left to evaluate on
+// them: a clause that starts with "logID = ?" (every statement of the repository) selects by
+// primary key; anything else scans the table.
+func candidates(s *DBState, staged []dbOp, conds []int, args []any) (keys []string, rows []dbRow, rest []int, restArgs []any) {
+	if len(conds) > 0 && conds[0] == colLogID*10+1 && len(args) > 0 {
+		if ks, ok := args[0].(string); ok {
+			if row, found := lookupIn(s, staged, ks); found {
+				keys, rows = []string{ks}, []dbRow{row}
+			}
+			return keys, rows, conds[1:], args[1:]
+		}
+	}
+	keys, rows = view(s, staged)
+	return keys, rows, conds, args
+}
+
+func colOf(row dbRow, c int) []byte {
+	switch c {
+	case colChkpt:
+		return row.Chkpt
+	case colRange:
+		return row.Range
+	}
+	return nil
+}
+
+// matches evaluates a WHERE conjunction on one row; args are the placeholders of the clause in
+// order. SQLite is dynamically typed: a BLOB argument never equals the TEXT keys of this table,
+// and NULL never compares equal to anything.
+func matches(key string, row dbRow, conds []int, args []any) bool {
+	ai := 0
+	for _, cd := range conds {
+		c, kind := cd/10, cd%10
+		switch kind {
+		case 1: // col = ?
+			if ai >= len(args) {
+				Unsupported("WHERE clause with more placeholders than arguments")
+			}
+			a := args[ai]
+			ai++
+			if c == colLogID {
+				ks, ok := a.(string)
+				if !ok {
+					if _, isBytes := a.([]byte); isBytes || a == nil {
+						return false
+					}
+					Unsupported("comparison of logID with a value of an unsupported type")
+				}
+				if key != ks {
+					return false
+				}
+			} else {
+				v := colOf(row, c)
+				want, ok := a.([]byte)
+				if !ok {
+					if a == nil {
+						return false
+					}
+					Unsupported("comparison of a BLOB column with a non-[]byte value")
+				}
+				if v == nil || want == nil || !Eq(v, want) {
+					return false
+				}
+			}
+		case 2: // IS NULL
+			if c == colLogID || colOf(row, c) != nil {
+				return false
+			}
+		case 3: // IS NOT NULL
+			if c != colLogID && colOf(row, c) == nil {
+				return false
+			}
+		}
 	}
 	return true
+}
+
+func nPlaceholders(conds []int) int {
+	n := 0
+	for _, cd := range conds {
+		if cd%10 == 1 {
+			n++
+		}
+	}
+	return n
+}
+
+func cellsOf(key string, row dbRow, cols []int) []cell {
+	var out []cell
+	for _, c := range cols {
+		if c == colLogID {
+			out = append(out, cell{isKey: true, key: key})
+		} else {
+			out = append(out, cell{val: colOf(row, c)})
+		}
+	}
+	return out
+}
+
+// selectRows evaluates SELECT cols FROM chkpts [WHERE ...].
+func selectRows(s *DBState, staged []dbOp, query string, args []any) ([][]cell, bool) {
+	op, _, cols, _, conds := SQLParse(query)
+	if op != 2 || len(cols) == 0 {
+		Unsupported("query with an unrecognised SQL statement")
+	}
+	if !s.Created || len(args) != nPlaceholders(conds) {
+		return nil, false // no such table / wrong number of bind arguments
+	}
+	keys, rows, conds, args := candidates(s, staged, conds, args)
+	var out [][]cell
+	for i := range keys {
+		if matches(keys[i], rows[i], conds, args) {
+			out = append(out, cellsOf(keys[i], rows[i], cols))
+		}
+	}
+	return out, true
 }
 
 func queryRow(s *DBState, staged []dbOp, query string, args []any) *sql.Row {
@@ -192,33 +334,13 @@ func queryRow(s *DBState, staged []dbOp, query string, args []any) *sql.Row {
 		st.err = errDB
 		return r
 	}
-	op, _, cols, where := SQLParse(query)
-	nul := where / 4
-	where %= 4
-	if op != 2 || where != 1 || len(cols) != 1 {
-		Unsupported("QueryRow with an unrecognised SQL statement")
-	}
-	if len(args) != 1 {
+	rows, ok := selectRows(s, staged, query, args)
+	if !ok {
 		st.err = errDB
 		return r
 	}
-	key, ok := args[0].(string)
-	if !ok {
-		Unsupported("SELECT with a non-string key")
-	}
-	if !s.Created {
-		st.err = errDB // no such table
-		return r
-	}
-	row, found := lookupIn(s, staged, key)
-	st.found = found && nullOK(row, nul)
-	switch cols[0] {
-	case colChkpt:
-		st.val = row.Chkpt
-	case colLogID:
-		st.isKey, st.key = true, key
-	default:
-		st.val = nil // the range column is never written: NULL
+	if len(rows) > 0 {
+		st.found, st.cells = true, rows[0]
 	}
 	return r
 }
@@ -263,35 +385,53 @@ func RowScan(r *sql.Row, dest ...any) error {
 	if !st.found {
 		return sql.ErrNoRows
 	}
-	if len(dest) != 1 {
+	return scanCells(st.cells, dest)
+}
+
+func scanCells(cells []cell, dest []any) error {
+	if len(dest) != len(cells) {
 		return errDB
 	}
-	switch d := dest[0].(type) {
-	case *[]byte:
-		if st.isKey {
-			*d = []byte(st.key)
-		} else {
-			*d = st.val // NULL scans into a nil slice
+	for i, c := range cells {
+		switch d := dest[i].(type) {
+		case *[]byte:
+			if c.isKey {
+				*d = []byte(c.key)
+			} else {
+				*d = c.val // NULL scans into a nil slice
+			}
+		case *string:
+			if c.isKey {
+				*d = c.key
+			} else if c.val == nil {
+				return errDB // converting NULL to string is unsupported
+			} else {
+				*d = string(c.val)
+			}
+		default:
+			Unsupported("Scan into an unsupported destination type")
 		}
-	case *string:
-		if st.isKey {
-			*d = st.key
-		} else if st.val == nil {
-			return errDB // converting NULL to string is unsupported
-		} else {
-			*d = string(st.val)
-		}
-	default:
-		Unsupported("Row.Scan into an unsupported destination type")
 	}
 	return nil
 }
 
+// bindValue turns a bind argument into a column value (nil = NULL). TEXT written into a BLOB
+// column reads back as the same bytes.
+func bindValue(a any) []byte {
+	switch v := a.(type) {
+	case nil:
+		return nil
+	case []byte:
+		return v
+	case string:
+		return []byte(v)
+	}
+	Unsupported("bind argument of an unsupported type")
+	return nil
+}
+
 func execStmt(s *DBState, staged *[]dbOp, query string, args []any) (int64, error) {
-	op, conflict, cols, where := SQLParse(query)
-	nul := where / 4
-	where %= 4
-	whereKey := where >= 1
+	op, conflict, cols, lits, conds := SQLParse(query)
 	var cur []dbOp
 	if staged != nil {
 		cur = *staged
@@ -303,6 +443,19 @@ func execStmt(s *DBState, staged *[]dbOp, query string, args []any) (int64, erro
 			s.Table[key] = row
 		}
 	}
+	del := func(key string) {
+		if staged != nil {
+			*staged = append(*staged, dbOp{del: true, key: key})
+		} else {
+			delete(s.Table, key)
+		}
+	}
+	nSet := 0
+	for _, l := range lits {
+		if l == 0 {
+			nSet++
+		}
+	}
 	switch op {
 	case 1: // CREATE TABLE IF NOT EXISTS
 		if staged != nil {
@@ -310,27 +463,31 @@ func execStmt(s *DBState, staged *[]dbOp, query string, args []any) (int64, erro
 		}
 		s.Created = true
 		return 0, nil
-	case 3: // INSERT [OR REPLACE | OR IGNORE] INTO chkpts (cols) VALUES (?...)
-		if !s.Created || len(args) != len(cols) {
+	case 3: // INSERT [OR REPLACE | OR IGNORE] INTO chkpts (cols) VALUES (?|NULL ...)
+		if !s.Created || len(args) != nSet {
 			return 0, errDB
 		}
 		var key string
 		haveKey := false
 		row := dbRow{}
+		ai := 0
 		for i, c := range cols {
+			var a any
+			if lits[i] == 0 {
+				a = args[ai]
+				ai++
+			}
 			switch c {
 			case colLogID:
-				k, ok := args[i].(string)
+				k, ok := a.(string)
 				if !ok {
 					Unsupported("INSERT with a non-string logID")
 				}
 				key, haveKey = k, true
 			case colChkpt:
-				v, ok := args[i].([]byte)
-				if !ok {
-					Unsupported("INSERT with a non-[]byte chkpt")
-				}
-				row.Chkpt = v
+				row.Chkpt = bindValue(a)
+			case colRange:
+				row.Range = bindValue(a)
 			}
 		}
 		if !haveKey {
@@ -347,74 +504,50 @@ func execStmt(s *DBState, staged *[]dbOp, query string, args []any) (int64, erro
 		}
 		put(key, row)
 		return 1, nil
-	case 4: // UPDATE chkpts SET col = ? ... WHERE logID = ?
-		if !s.Created || where != 1 || len(args) != len(cols)+1 {
-			if where != 1 {
-				Unsupported("UPDATE without a plain WHERE logID = ?")
-			}
+	case 4: // UPDATE chkpts SET col = ?|NULL ... [WHERE ...]
+		if !s.Created || len(args) != nSet+nPlaceholders(conds) {
 			return 0, errDB
 		}
-		key, ok := args[len(cols)].(string)
-		if !ok {
-			// SQLite is dynamically typed: a BLOB never equals the TEXT keys this table holds
-			if _, isBytes := args[len(cols)].([]byte); isBytes {
-				return 0, nil
+		keys, rows, rest, restArgs := candidates(s, cur, conds, args[nSet:])
+		var n int64
+		for i := range keys {
+			if !matches(keys[i], rows[i], rest, restArgs) {
+				continue
 			}
-			Unsupported("UPDATE with a key of an unsupported type")
-		}
-		row, exists := lookupIn(s, cur, key)
-		if !exists || !nullOK(row, nul) {
-			return 0, nil // no row matches: nothing happens, no error
-		}
-		for i, c := range cols {
-			switch c {
-			case colChkpt:
-				v, ok := args[i].([]byte)
-				if !ok {
-					sv, isStr := args[i].(string)
-					if !isStr {
-						Unsupported("UPDATE with a chkpt value of an unsupported type")
-					}
-					v = []byte(sv) // stored as TEXT, read back as the same bytes
+			row := rows[i]
+			ai := 0
+			for j, c := range cols {
+				var a any
+				if lits[j] == 0 {
+					a = args[ai]
+					ai++
 				}
-				row.Chkpt = v
-			case colLogID:
-				Unsupported("UPDATE of the primary key")
+				switch c {
+				case colChkpt:
+					row.Chkpt = bindValue(a)
+				case colRange:
+					row.Range = bindValue(a)
+				case colLogID:
+					Unsupported("UPDATE of the primary key")
+				}
 			}
+			put(keys[i], row)
+			n++
 		}
-		put(key, row)
-		return 1, nil
-	case 5: // DELETE FROM chkpts WHERE logID = ?
-		if !s.Created {
+		return n, nil
+	case 5: // DELETE FROM chkpts [WHERE ...]
+		if !s.Created || len(args) != nPlaceholders(conds) {
 			return 0, errDB
 		}
-		if !whereKey || len(args) != where {
-			Unsupported("DELETE without WHERE logID = ?")
-		}
-		key, ok := args[0].(string)
-		if !ok {
-			Unsupported("DELETE with a non-string key")
-		}
-		row, exists := lookupIn(s, cur, key)
-		if !exists || !nullOK(row, nul) {
-			return 0, nil
-		}
-		if where == 2 {
-			// ... AND chkpt = ?  (NULL never compares equal)
-			want, ok := args[1].([]byte)
-			if !ok {
-				Unsupported("DELETE ... AND chkpt = ? with a non-[]byte value")
-			}
-			if row.Chkpt == nil || want == nil || !Eq(row.Chkpt, want) {
-				return 0, nil
+		keys, rows, rest, restArgs := candidates(s, cur, conds, args)
+		var n int64
+		for i := range keys {
+			if matches(keys[i], rows[i], rest, restArgs) {
+				del(keys[i])
+				n++
 			}
 		}
-		if staged != nil {
-			*staged = append(*staged, dbOp{del: true, key: key})
-		} else {
-			delete(s.Table, key)
-		}
-		return 1, nil
+		return n, nil
 	}
 	Unsupported("Exec with an unrecognised SQL statement")
 	return 0, nil
@@ -512,54 +645,14 @@ func TxRollback(tx *sql.Tx) error {
 	return nil
 }
 
-// rowsFor evaluates a SELECT of one column, with or without WHERE logID = ?, into a row set.
+// rowsFor evaluates a SELECT into a row set.
+// (Rows staged in an open transaction are seen by that transaction's own queries only.)
 func rowsFor(s *DBState, staged []dbOp, query string, args []any) (*rowsState, bool) {
-	op, _, cols, where := SQLParse(query)
-	nul := where / 4
-	where %= 4
-	if op != 2 || len(cols) != 1 || where == 2 {
-		Unsupported("Query with an unrecognised SQL statement")
-	}
-	whereKey := where == 1
-	if !s.Created {
+	rows, ok := selectRows(s, staged, query, args)
+	if !ok {
 		return nil, false
 	}
-	st := &rowsState{}
-	if whereKey {
-		if len(args) != 1 {
-			return nil, false
-		}
-		key, ok := args[0].(string)
-		if !ok {
-			Unsupported("SELECT with a non-string key")
-		}
-		row, found := lookupIn(s, staged, key)
-		if found && nullOK(row, nul) {
-			if cols[0] == colLogID {
-				st.vals = append(st.vals, key)
-				st.null = append(st.null, false)
-			} else if cols[0] == colChkpt {
-				st.vals = append(st.vals, string(row.Chkpt))
-				st.null = append(st.null, row.Chkpt == nil)
-			} else {
-				st.vals = append(st.vals, "")
-				st.null = append(st.null, true)
-			}
-		}
-		return st, true
-	}
-	if cols[0] != colLogID {
-		Unsupported("unfiltered SELECT of a column other than logID")
-	}
-	for k, row := range s.Table {
-		if !nullOK(row, nul) {
-			continue
-		}
-		st.vals = append(st.vals, k)
-		st.null = append(st.null, false)
-	}
-	// (rows staged in an open transaction are not listed: the repository never lists inside one)
-	return st, true
+	return &rowsState{rows: rows}, true
 }
 
 //wsym:replace (*database/sql.DB).Query
@@ -616,7 +709,7 @@ func RowsNext(rs *sql.Rows) bool {
 	if st.closed {
 		return false
 	}
-	if st.i < len(st.vals) {
+	if st.i < len(st.rows) {
 		if fault("rows.next") {
 			st.err = errDB
 			RowsClose(rs)
@@ -632,26 +725,10 @@ func RowsNext(rs *sql.Rows) bool {
 //wsym:replace (*database/sql.Rows).Scan
 func RowsScan(rs *sql.Rows, dest ...any) error {
 	st := rowsS[rs]
-	if st.closed || st.i == 0 || len(dest) != 1 {
+	if st.closed || st.i == 0 {
 		return errDB
 	}
-	isNull := st.null[st.i-1]
-	switch d := dest[0].(type) {
-	case *string:
-		if isNull {
-			return errDB
-		}
-		*d = st.vals[st.i-1]
-	case *[]byte:
-		if isNull {
-			*d = nil
-		} else {
-			*d = []byte(st.vals[st.i-1])
-		}
-	default:
-		Unsupported("Rows.Scan into an unsupported destination type")
-	}
-	return nil
+	return scanCells(st.rows[st.i-1], dest)
 }
 
 //wsym:replace (*database/sql.Rows).Err
